@@ -14,7 +14,13 @@
   on its own transitions obeys the same rule with a documented kind per key
   (`docKind`): values copied from the configuration store are VARS of the root
   role, so a value the user supplied for the same key keeps winning at every role at
-  every moment (`envOk`).
+  every moment (`envOk`). A workflow TEMPLATE is read as follows (`loadedOk`): an iterator
+  yields one sibling per value, and the iteration variable is a VAR of that sibling — the
+  nearest vars-kind definition for the instance and everything below it; an include role is
+  the root of the included workflow under the include role's name, and what was written at the
+  include site (its own defaults / vars, and the iteration variable when the include role is an
+  iterator's template) is the next level up: nearer than everything above the include role,
+  farther than the included workflow's own definitions.
 -/
 import ControlModel.Model.Vars
 import ControlModel.Model.VarsTree
@@ -73,6 +79,16 @@ def tmplOrderIrrelevant (keys : List String) (r : RoleIn) : Bool :=
 def writesOk (keys : List String) (t : Forest) (ws : List Write) (env : Path) (tmpl : Option (KV × KV))
     (obs : List RoleObs) : Bool :=
   caseOk keys (rolesReplayed t ws env tmpl) obs
+
+/-- Spec on a workflow TEMPLATE (iterators, include roles) after its load and a history of runtime
+    writes: the reading of the template is `expand` — one sibling per range value with the iteration
+    variable among the sibling's own vars (`withIter`; for an include role: among the vars of the
+    include SITE, the level right above the included root), include sites being levels, not roles —
+    and on the loaded tree the rule of `writesOk`. Nothing of the load's mechanism (`load`, `LoadCfg`:
+    Locals, the moment they are published, the replacement of the role's maps) enters here. -/
+def loadedOk (keys : List String) (tf : TForest) (ws : List Write) (env : Path) (tmpl : Option (KV × KV))
+    (obs : List RoleObs) : Bool :=
+  writesOk keys (expand tf) ws env tmpl obs
 
 /-! ## what the environment itself writes -/
 
